@@ -1,7 +1,7 @@
 //! Shared driver for the line-rule properties (C06–C09): run a batch, compare per block with the model's
 //! expectation, reduce a failing batch to the single failing block.
 use crate::engine::{Probe, Verdict};
-use crate::rules::{BlockPos, ExpDiag, Host, RuleBlock, diff_block, expected_exit, run_batch};
+use crate::rules::{BlockPos, ExpDiag, Host, Rendered, RuleBlock, diff_block, expected_exit, render_batch, run_rendered};
 use serde_json::Value;
 
 pub fn check_rule_batch(
@@ -12,8 +12,31 @@ pub fn check_rule_batch(
     probe: &Probe,
     reduce: &dyn Fn(usize) -> Value,
 ) -> Verdict {
-    let (r, res) = run_batch(host, blocks, probe, &[]);
-    let exps: Vec<Vec<ExpDiag>> = (0..blocks.len()).map(|i| exp(i, &r.pos[i])).collect();
+    let render = |idx: &[usize]| -> Rendered {
+        let sel: Vec<RuleBlock> = idx.iter().map(|&i| blocks[i].clone()).collect();
+        render_batch(host, &sel)
+    };
+    let describe = |i: usize| format!("{:?}", blocks[i]);
+    check_rendered_batch(prop, host.file(), blocks.len(), &render, &describe, exp, probe, reduce)
+}
+
+/// Generic form: `render(indices)` lays out the selected items in one file.
+#[allow(clippy::too_many_arguments)]
+pub fn check_rendered_batch(
+    prop: &str,
+    file: &str,
+    n: usize,
+    render: &dyn Fn(&[usize]) -> Rendered,
+    describe: &dyn Fn(usize) -> String,
+    exp: &dyn Fn(usize, &BlockPos) -> Vec<ExpDiag>,
+    probe: &Probe,
+    reduce: &dyn Fn(usize) -> Value,
+) -> Verdict {
+    let all_idx: Vec<usize> = (0..n).collect();
+    let r = render(&all_idx);
+    let res = run_rendered(file, &r, probe, &[], &[]);
+
+    let exps: Vec<Vec<ExpDiag>> = (0..n).map(|i| exp(i, &r.pos[i])).collect();
     let mut bad: Option<(Option<usize>, String)> = None;
     if res.out.timed_out {
         return Verdict::Fail(format!("{prop}: run timed out: {}", res.out.brief()));
@@ -25,9 +48,9 @@ pub fn check_rule_batch(
     } else if !res.stray.is_empty() {
         bad = Some((None, format!("diagnostics outside any block: {:?}", res.stray)));
     } else {
-        for i in 0..blocks.len() {
+        for i in 0..n {
             if let Some(m) = diff_block(&exps[i], &res.per_block[i]) {
-                bad = Some((Some(i), format!("block #{i} {:?}: {m}", blocks[i])));
+                bad = Some((Some(i), format!("block #{i} {}: {m}", describe(i))));
                 break;
             }
         }
@@ -42,17 +65,17 @@ pub fn check_rule_batch(
         }
     }
     let Some((idx, why)) = bad else { return Verdict::Pass };
-    if blocks.len() == 1 {
-        return Verdict::Fail(format!("{prop}: {why}\n--- file {} ---\n{}", host.file(), crate::cli::trunc(&r.text, 1500)));
+    if n == 1 {
+        return Verdict::Fail(format!("{prop}: {why}\n--- file {file} ---\n{}\n--- observed ---\n{}", crate::cli::trunc(&r.text, 1500), res.out.brief()));
     }
     // reduce: find a single block that fails alone
     let candidates: Vec<usize> = match idx {
         Some(i) => vec![i],
-        None => (0..blocks.len()).collect(),
+        None => (0..n).collect(),
     };
     for i in candidates {
-        let single = [blocks[i].clone()];
-        let (r1, res1) = run_batch(host, &single, probe, &[]);
+        let r1 = render(&[i]);
+        let res1 = run_rendered(file, &r1, probe, &[], &[]);
         let e1 = exp(i, &r1.pos[0]);
         let abnormal = res1.out.panicked() || !matches!(res1.out.code, Some(0) | Some(1)) || res1.parse_error.is_some();
         let mism = diff_block(&e1, &res1.per_block[0]);
@@ -60,10 +83,10 @@ pub fn check_rule_batch(
         if abnormal || mism.is_some() || exit_bad {
             return Verdict::FailReduced(
                 format!(
-                    "{prop}: block {:?}: {}\n--- file {} ---\n{}\n--- observed ---\n{}",
-                    blocks[i],
+                    "{prop}: block {}: {}\n--- file {} ---\n{}\n--- observed ---\n{}",
+                    describe(i),
                     mism.unwrap_or_else(|| "abnormal exit / exit status".into()),
-                    host.file(),
+                    file,
                     r1.text,
                     res1.out.brief()
                 ),
